@@ -55,6 +55,7 @@ class SimTransport(asyncio.Transport):
         self.jitter = jitter  # callable() -> k loop iterations of "not writable" after a write
         self._jit_left = 0
         self.bytes_written = 0
+        self._eof_sent = False
         self._inq = []  # client bytes waiting in the "kernel" while the reader is paused
 
     # ---- Transport API ------------------------------------------------------------------
@@ -188,7 +189,7 @@ class SimTransport(asyncio.Transport):
         self._call_lost(ConnectionResetError("peer reset"))
 
     def net_feed(self, data):
-        if self._lost or self._closing:
+        if self._lost or self._closing or self._eof_sent:
             return False
         if self.reading_paused or self._inq:
             self._inq.append(data)
@@ -198,8 +199,9 @@ class SimTransport(asyncio.Transport):
 
     def net_eof(self):
         self.trace.ev("client", "eof")
-        if self._lost or self._closing:
+        if self._lost or self._closing or self._eof_sent:
             return
+        self._eof_sent = True
         if self.reading_paused or self._inq:
             self._inq.append(None)
             return
